@@ -146,6 +146,32 @@ func scTamper(r *Run) {
 		return true
 	}
 
+	// the adversary may deliver its altered datagram several times (a receiver that tolerates a few bad
+	// datagrams must still never act on one)
+	copies := 1
+	if r.Intn("copies", 4) == 0 {
+		copies = 2 + r.Intn("copies", 7)
+	}
+	deliver := func(c *Dgram, dly time.Duration) {
+		for k := 0; k < copies; k++ {
+			x := c
+			if k > 0 {
+				x = c.clone()
+				x.Mut = c.Mut + fmt.Sprintf(" (copy %d)", k+1)
+				if kind == 0 && r.Intn("copies", 2) == 0 && pos < len(x.Data) {
+					x.Data[pos] ^= byte(1 + r.Intn("copies", 255)) // another wrong value at the same place
+					if x.Data[pos] == c.Data[pos]^mask {
+						x.Data[pos] ^= 0x55 // (never the genuine byte)
+					}
+				}
+			}
+			n.Redeliver(x, dly+time.Duration(k)*time.Duration(1+r.Intn("copies", 300))*time.Microsecond)
+		}
+		if copies > 1 {
+			r.CountFault("altered-datagram-repeated", int64(copies-1))
+		}
+	}
+
 	// a second, independent handshake supplies the datagrams for replacement
 	// and the key-distinctness obligation
 	captured := map[byte][]byte{}
@@ -186,7 +212,7 @@ func scTamper(r *Run) {
 			c.Data[pos] ^= mask
 			c.Mut = fmt.Sprintf("xor@%d^%02x", pos, mask)
 			applied = fmt.Sprintf("%s of %d bytes: byte %d xor %02x", m.name, len(d.Data), pos, mask)
-			n.Redeliver(c, n.Cfg.Latency)
+			deliver(c, n.Cfg.Latency)
 			return false
 		case 3:
 			if pos >= len(d.Data) || len(d.Data) < 2 {
@@ -204,7 +230,7 @@ func scTamper(r *Run) {
 			c.Data[q] ^= mask
 			c.Mut = fmt.Sprintf("xor@%d,%d^%02x", pos, q, mask)
 			applied = fmt.Sprintf("%s of %d bytes: bytes %d and %d xor %02x", m.name, len(d.Data), pos, q, mask)
-			n.Redeliver(c, n.Cfg.Latency)
+			deliver(c, n.Cfg.Latency)
 			return false
 		case 1, 4:
 			if pos >= len(d.Data) {
@@ -228,7 +254,7 @@ func scTamper(r *Run) {
 				n.Redeliver(full, n.Cfg.Latency)
 				applied += " (right behind a full copy from another address)"
 			}
-			n.Redeliver(c, n.Cfg.Latency+time.Microsecond)
+			deliver(c, n.Cfg.Latency+time.Microsecond)
 			return false
 		default:
 			src := captured[t]
@@ -242,7 +268,7 @@ func scTamper(r *Run) {
 			c.Data = append([]byte(nil), src...)
 			c.Mut = "replaced"
 			applied = fmt.Sprintf("%s replaced by the %s of an independent handshake (variant %d)", m.name, m.name, pos)
-			n.Redeliver(c, n.Cfg.Latency)
+			deliver(c, n.Cfg.Latency)
 			return false
 		}
 	}
@@ -310,6 +336,9 @@ func scTamper(r *Run) {
 	} else {
 		r.Obligation(1)
 		r.InFlightFault()
+		if copies > 1 {
+			applied += fmt.Sprintf(", delivered %d times", copies)
+		}
 		if m.toServer && serverDone && kind == 2 && m.typ == 0x08 {
 			// A hidden-mode request is a complete one-message handshake: substituting the
 			// request of another handshake makes the server complete THAT (replayed)
